@@ -54,7 +54,7 @@ theorem dropCR_line (pre core post : Bytes) (hc : core ≠ []) (hl : core.getLas
     ∃ post', allWs post' ∧ dropCR (pre ++ core ++ post) = pre ++ core ++ post' := by
   rcases List.eq_nil_or_concat post with hp | ⟨q, b, hp⟩
   · subst hp
-    refine ⟨[], by intro b hb; simp at hb, ?_⟩
+    refine ⟨[], allWs.nil, ?_⟩
     apply dropCR_of_last_ne
     simp only [List.append_nil]
     rw [List.getLast?_append]
@@ -65,13 +65,24 @@ theorem dropCR_line (pre core post : Bytes) (hc : core ≠ []) (hl : core.getLas
     subst hp
     by_cases hb : b = 13
     · subst hb
-      refine ⟨q, fun x hx => hpost x (by simp [hx]), ?_⟩
+      refine ⟨q, allWs_of_concat_cr hpost, ?_⟩
       rw [← List.append_assoc]
       exact dropCR_concat_cr _
     · refine ⟨q ++ [b], hpost, ?_⟩
       apply dropCR_of_last_ne
       rw [← List.append_assoc, List.getLast?_concat]
       simpa using hb
+
+/-- dropping a final CR from padding leaves padding -/
+theorem allWs_dropCR {p : Bytes} (hp : allWs p) : allWs (dropCR p) := by
+  rcases List.eq_nil_or_concat p with h | ⟨q, b, h⟩
+  · subst h; exact allWs.nil
+  · rw [List.concat_eq_append] at h
+    subst h
+    by_cases hb : b = 13
+    · subst hb
+      rw [dropCR_concat_cr]; exact allWs_of_concat_cr hp
+    · rw [dropCR_of_last_ne _ (by rw [List.getLast?_concat]; simpa using hb)]; exact hp
 
 /-! ### one line -/
 
@@ -107,7 +118,7 @@ theorem uriPass_line (line R bs : Bytes) (h : Hdrs) (hline : LF ∉ line) (hfit 
 
 /-- a blank line -/
 theorem uriLine_blank (p : Bytes) (h : Hdrs) (hp : allWs p) : uriLine (dropCR p) h = .skip h := by
-  have : trimSpace (dropCR p) = [] := trimSpace_allWs _ (fun b hb => hp b (mem_dropCR hb))
+  have : trimSpace (dropCR p) = [] := trimSpace_allWs _ (allWs_dropCR hp)
   simp [uriLine, this]
 
 theorem headerContent_props (k v i1 i2 i3 i4 : Bytes) :
